@@ -149,6 +149,52 @@ def bytesOut (x : PyFrame δ) : Except ObjErr (List Byte) → Out δ
     | none => .raised .struct
   | .error e => .raised e
 
+/-! #### header fields are plain attributes: they can be re-assigned between serialisations -/
+
+inductive HdrField
+  | rcpt | sender | etype | ever
+deriving Repr, DecidableEq
+
+/-- `frame.recipient = v` etc.: stores the value, touches neither cache -/
+def setHdr (x : PyFrame δ) : HdrField → Int → PyFrame δ
+  | .rcpt, v => { x with rcpt := v }
+  | .sender, v => { x with sender := v }
+  | .etype, v => { x with etype := v }
+  | .ever, v => { x with ever := v }
+
+/-- operations on one frame object including attribute assignment of the four header fields -/
+inductive HOp (δ : Type)
+  | op (o : Op δ)
+  | hdr (f : HdrField) (v : Int)
+deriving Repr
+
+def stepH (c : FrameCodec δ) (x : PyFrame δ) : HOp δ → PyFrame δ × Out δ
+  | .op o => step c x o
+  | .hdr f v => (setHdr x f v, .done)
+
+def runH (c : FrameCodec δ) (x : PyFrame δ) : List (HOp δ) → PyFrame δ × List (Out δ)
+  | [] => (x, [])
+  | o :: ops =>
+    let r := stepH c x o
+    let rs := runH c r.1 ops
+    (rs.1, r.2 :: rs.2)
+
+/-- the header after the assignments of `ops` (the last assignment of a field wins) -/
+def hdrAfter (x : PyFrame δ) : List (HOp δ) → PyFrame δ
+  | [] => x
+  | .op _ :: ops => hdrAfter x ops
+  | .hdr f v :: ops => hdrAfter (setHdr x f v) ops
+
+/-- the content operations of a sequence -/
+def contentOps : List (HOp δ) → List (Op δ)
+  | [] => []
+  | .op o :: ops => o :: contentOps ops
+  | .hdr _ _ :: ops => contentOps ops
+
+/-- the codec does not look at the header's sender (true of every kind but the program-version
+response, whose payload carries the sender's address) -/
+def senderFree (c : FrameCodec δ) : Prop := ∀ s s' d, c.create s d = c.create s' d
+
 end Obj
 
 /-! ### the data dicts and codecs of the modelled kinds -/
